@@ -5,6 +5,14 @@ From Apd Require Import Generated.Consts Model.Base Model.NumDigits Model.Decima
   Proofs.Digits Proofs.Core Proofs.CmpProofs Proofs.RoundBasics Proofs.SetExponent.
 Open Scope Z_scope.
 
+Lemma is_zero_true v : is_zero v = true -> form_of v = Finite /\ coeff v = 0.
+Proof.
+  unfold is_zero, dsign, is_finite. destruct (form_eqb (form_of v) Finite) eqn:Ef; cbn [andb].
+  - destruct (Z.eqb_spec (coeff v) 0) as [Hz|_]; [|destruct (neg v); discriminate].
+    intros _. split; [destruct (form_of v); try discriminate; reflexivity|exact Hz].
+  - destruct (neg v); discriminate.
+Qed.
+
 Section WithEst.
 Variable est : Z -> Z.
 Hypothesis HE : est_in_range est.
@@ -14,6 +22,8 @@ Theorem quantize_finer c v e : e <= exp v -> exp v - e <= MaxExponent ->
   quantize_inner est c v e = Ok (mkDec (form_of v) (neg v) e (coeff v * 10 ^ (exp v - e)), c0).
 Proof.
   intros Hle Hlim. unfold quantize_inner.
+  destruct (is_zero v) eqn:Ez.
+  { destruct (is_zero_true v Ez) as [Hf Hz]. unfold set_exp. rewrite Hz. reflexivity. }
   destruct (Z.ltb_spec (e - exp v) 0) as [Hlt|Hge].
   - destruct (Z.ltb_spec (e - exp v) MinExponent); [unfold MinExponent, MaxExponent in *; lia|].
     rewrite table_exp10_ok by lia. cbn [bind]. unfold set_exp, set_coeff. cbn [form_of neg exp coeff].
@@ -45,23 +55,21 @@ Proof.
     unfold cmpZ. assert (H2 : 2 * coeff v < k) by lia. apply Z.compare_lt_iff in H2. rewrite H2. reflexivity. }
   split.
   - unfold quantize_inner. fold diff.
+    rewrite (is_zero_finite v Hf). destruct (Z.eqb_spec (coeff v) 0); [lia|].
     destruct (Z.ltb_spec diff 0); [lia|]. destruct (Z.gtb_spec diff 0); [|lia].
     rewrite (nd_ok est HE). cbn [bind].
     destruct (Z.ltb_spec (ndigits (coeff v) - diff) 0); [|lia].
-    rewrite (is_zero_finite v Hf). destruct (Z.eqb_spec (coeff v) 0); [lia|]. cbn [negb].
+    cbn [negb].
     fold k. rewrite Hr. unfold set_exp, set_coeff. cbn [form_of neg exp coeff]. rewrite Hf. reflexivity.
   - fold k. rewrite Hr. destruct (should_add_one _ _ _ _); lia.
 Qed.
 
-(* a zero operand: only the exponent changes *)
-Theorem quantize_zero_coarser c v e : form_of v = Finite -> coeff v = 0 -> 1 < e - exp v ->
+(* a zero operand: only the exponent changes, whatever the distance between the exponents, and no condition is raised *)
+Theorem quantize_zero c v e : form_of v = Finite -> coeff v = 0 ->
   quantize_inner est c v e = Ok (mkDec Finite (neg v) e 0, c0).
 Proof.
-  intros Hf Hz Hd. unfold quantize_inner.
-  destruct (Z.ltb_spec (e - exp v) 0); [lia|]. destruct (Z.gtb_spec (e - exp v) 0); [|lia].
-  rewrite (nd_ok est HE). cbn [bind]. rewrite Hz. change (ndigits 0) with 1.
-  destruct (Z.ltb_spec (1 - (e - exp v)) 0); [|lia].
-  rewrite (is_zero_finite v Hf), Hz. cbn [Z.eqb negb]. unfold set_exp. cbn [form_of neg coeff]. rewrite Hf, Hz. reflexivity.
+  intros Hf Hz. unfold quantize_inner. rewrite (is_zero_finite v Hf), Hz. cbn [Z.eqb].
+  unfold set_exp. rewrite Hf, Hz. reflexivity.
 Qed.
 
 (* RoundToIntegralValue/Exact and Quantize share quantize_inner; specials pass through *)
